@@ -55,6 +55,8 @@ class C02(CtxCheck):
     def _units0(self, tier: str, seed: int) -> list:
         comp = [{"comp": {"where": w, "nest": n, "order": o}} for w in ("root.prepare", "a.prepare", "a.start", "root.start", "g.start")
                 for n in (False, True) for o in ("ag", "ga")]
+        comp += [{"comp": {"same_task": True, "bparent": bp, "leave": lv, "depth": d}} for bp in ("root", "a", "mid") for lv in ("clean", "exc")
+                 for d in (2, 3) if not (bp == "mid" and d == 2)]
         return super().units(tier, seed) + comp
 
     def _work0(self, unit: dict, tier: str) -> dict:
@@ -88,7 +90,73 @@ class C02(CtxCheck):
             return 0
         return super().replay(rec)
 
+    async def same_task_main(self, env: Any, p: dict) -> None:
+        """Contexts nested in ONE task, one of them created with an explicit parent that is not the current context: after it has
+        been left, the shortcuts and @inject must again work on the context that was current before (what is added there must not
+        land in, or be looked up from, the parent)."""
+        import asphalt.core as ac
+        from asphalt.core import Context
+
+        from ..ctxuniverse import A, injected
+
+        labels: dict[int, str] = {}
+
+        def mk(label: str) -> Any:
+            v = A(label)
+            labels[id(v)] = label
+            return v
+
+        def vis(ctx: Any) -> dict:
+            return {n: labels.get(id(v)) for n, v in ctx.get_resources(A).items()}
+
+        async with Context() as root:
+            root.add_resource(mk("r"), "r")
+            async with Context() as mid:
+                mid.add_resource(mk("m"), "m")
+                cur_ctx = mid
+                stack = [root, mid]
+                if p["depth"] == 3:
+                    inner = Context()
+                    await inner.__aenter__()
+                    inner.add_resource(mk("i"), "i")
+                    stack.append(inner)
+                    cur_ctx = inner
+                try:
+                    bparent = {"root": root, "a": cur_ctx, "mid": mid}[p["bparent"]]
+                    b = Context(bparent)
+                    try:
+                        async with b:
+                            ac.add_resource(mk("inb"), "inb")
+                            if p["leave"] == "exc":
+                                raise ValueError("leave b")
+                    except ValueError:
+                        pass
+                    # back in cur_ctx
+                    ac.add_resource(mk("after"), "after")
+                    exp = dict(vis(cur_ctx))
+                    if "after" not in exp:
+                        env.fail("visible", f"a resource added through the shortcut after leaving a context with an explicit parent landed outside the current context: "
+                                            f"current sees {exp}, root sees {vis(root)}, mid sees {vis(mid)}")
+                    for other, nm in ((root, "root"), (mid, "mid")):
+                        if other is not cur_ctx and "after" in vis(other):
+                            env.fail("visible", f"a resource added to the current context became visible in {nm}: {vis(other)}")
+                    for name in ("r", "m", "i", "inb", "after"):
+                        want = exp.get(name)
+                        got = {}
+                        got["method"] = labels.get(id(cur_ctx.get_resource_nowait(A, name, optional=True)))
+                        got["shortcut"] = labels.get(id(ac.get_resource_nowait(A, name, optional=True)))
+                        got["shortcut-async"] = labels.get(id(await ac.get_resource(A, name, optional=True)))
+                        got["inject"] = labels.get(id(injected("A", name, True, False)()))
+                        got["inject-async"] = labels.get(id(await injected("A", name, True, True)()))
+                        if any(g != want for g in got.values()):
+                            env.fail("visible", f"lookup paths disagree for (A, {name!r}) in the current context: {got}, get_resources says {want!r}")
+                finally:
+                    if p["depth"] == 3:
+                        await stack[-1].__aexit__(None, None, None)
+
     async def comp_main(self, env: Any, p: dict) -> None:
+        if p.get("same_task"):
+            return await self.same_task_main(env, p)
         """A component tree root(a, g) publishes resources while it starts; at the point named by ``where`` a Context() is
         created from inside the component method (implicit parent) - optionally from inside another entered context - and must be
         a snapshot of the *surrounding* context at that moment, through every lookup API."""
